@@ -8,6 +8,8 @@
 #[derive(Clone, Copy)] pub struct ParameterId { pub _p: usize }
 #[derive(Clone, Copy)] pub enum BinaryOp { And, Or, Xor, Iff, Imp }
 pub enum FnUpdate { Const(bool), Var(VariableId), Param(ParameterId, Vec<FnUpdate>), Not(Box<FnUpdate>), Binary(BinaryOp, Box<FnUpdate>, Box<FnUpdate>) }
+// R-derive: #[derive(PartialEq)] of FnUpdate (structural)
+impl PartialEq for FnUpdate { #[verifier::external_body] fn eq(&self, o: &Self) -> (r: bool) ensures r <==> *self == *o { unimplemented!() } }
 #[verifier::external_body] pub struct BooleanNetwork { _p: u8 }
 #[verifier::external_body] pub struct Parameter { _p: u8 }
 
